@@ -272,6 +272,22 @@ theorem edge_array_ok [DecidableEq α] (lt : α → α → Bool) (asInt : Option
 example : ([((0 : Int), (3 : Int)), (3, 0)] : List (Int × Int)) ≠ [] ∧
     ∀ e ∈ ([((0 : Int), (3 : Int)), (3, 0)] : List (Int × Int)), 0 ≤ id e.1 ∧ 0 ≤ id e.2 := by decide
 
+/-- a graph that is not bipartite gets a square matrix — whatever `shape`, `reindex` and the identifier type -/
+theorem edge_array_square [DecidableEq α] (lt : α → α → Bool) (asInt : Option (α → Int))
+    (rows : List (α × α)) (weights : Option (List Rat)) (f : Flags) (g : Graph α)
+    (hb : f.bipartite = false) (h : fromEdgeArray lt asInt rows weights f = .ok g) :
+    g.matrix.nCol = g.matrix.nRow := by
+  unfold fromEdgeArray fromEdgeArrayWith at h
+  simp only at h
+  split at h
+  · cases h
+  · simp only [hb, Bool.false_eq_true, if_false] at h
+    split at h
+    · cases h
+    · cases h
+      simp only [sqMatrix]
+      split <;> simp [directed2undirected, apply_ite]
+
 /-- **smallest compatible shape.** Without `shape` and without reindexing the dimensions are the largest listed
     identifier plus one (rows: sources, columns: targets when bipartite; all nodes otherwise). -/
 theorem edge_array_shape_minimal (rows : List (Int × Int)) (weights : Option (List Rat)) (f : Flags) (g : Graph Int)
@@ -499,7 +515,9 @@ theorem unweighted_binary [DecidableEq α] (f : Flags) (hw : f.weighted = false)
 def WellFormedTuples (edges : List EdgeTuple) : Prop :=
   edges ≠ [] ∧ (∀ e ∈ edges, e.2.2 ≠ .text) ∧ (hasWeights edges = true → ∀ e ∈ edges, e.2.2 ≠ .absent)
 
-/-- **from_edge_list is from_edge_array on the typed array.** For a non-empty list of tuples of one arity with numeric
+/-- **from_edge_list is from_edge_array on the typed array.** (Integers are exact in the model; numpy holds them
+    in int64: identifiers are assumed to lie in [-2^63, 2^63), beyond that numpy builds object arrays, which are
+    not modelled. Since the repair of F-bigint no identifier goes through a float any more.) For a non-empty list of tuples of one arity with numeric
     weights, `from_edge_list` is `from_edge_array` applied to the array numpy builds (`classify`: an integer
     array when every identifier is an int or every identifier reads as an integer, else the array of their
     strings) and to the weights — so `edge_array_entry_*` and `names_roundtrip` describe its result, the names
@@ -584,8 +602,10 @@ theorem liftNames_ok (hmap : α → Ident) (x : Except Ingest.PyErr (Graph α)) 
     subst h
     exact ⟨g0, rfl, rfl, rfl, rfl, rfl, rfl, rfl⟩
 
-/-- **from_edge_list, string identifiers.** When some identifier does not read as an integer, the graph returned by
-    `from_edge_list` is named by the printed forms of the identifiers, and entry (i, j) is the value the
+/-- **from_edge_list, string identifiers.** When some identifier does not read as an integer (hypothesis `hcl`;
+    a list made only of numeric-looking strings such as the zip codes `'01234'`, `'02138'` does *not* satisfy it:
+    numpy reads them as the integers 1234, 2138 and their spelling is lost — an excluded input, see the status
+    file), the graph returned by `from_edge_list` is named by the printed forms of the identifiers, and entry (i, j) is the value the
     specification reads off the list of tuples for the identifiers named at i and j. -/
 theorem edge_list_entry_str (parse : String → Option Int) (edges : List EdgeTuple) (f : Flags) (g : Graph Ident)
     (hwf : WellFormedTuples edges)
@@ -654,7 +674,8 @@ example : WellFormedTuples [(.str "a", .int 1, .num 2), (.int 1, .str "b", .num 
     first `n_scan = 100` are scanned), read with
     the delimiter `d` given as `delimiter=` or through its alias `sep=` (any character), whose rows all split into
     two fields or all into three, without blanks around the fields, comment characters inside the rows, blank rows,
-    or numeric identifiers that are not integers: `from_csv` returns exactly what `from_edge_list` returns on the
+    quote characters (`csv.reader` honours quotes, the model's reader does not: `CleanFile.unquoted`) or numeric
+    identifiers that are not integers (`hint`: the fast path truncates `1.5`, `from_edge_list` keeps it): `from_csv` returns exactly what `from_edge_list` returns on the
     list of its rows (numeric fast path and string branch alike) — for all flags. -/
 theorem csv_as_rows_given (num : String → Option Rat) (header body : List String)
     (a : CsvArgs) (f : Flags) (d : Char)
@@ -739,7 +760,7 @@ theorem adjacency_dict_as_edges (parse : String → Option Int) (adj : List (Ide
 example : CleanFile ',' (lastComment '#' ["# two edges"]) ['#', '%'] ["# two edges"] ["a,b,2", "b,c,0.5"] ∧
     (∀ s ∈ ["a,b,2", "b,c,0.5"], rstrip s = s) ∧ (∀ s ∈ ["a,b,2", "b,c,0.5"], (splitAt ',' s).length = 3) ∧
     isCommentLine ['#', '%'] "# two edges" = true := by
-  refine ⟨⟨?_, ?_, ?_, ?_, ?_, ?_⟩, ?_, ?_, ?_⟩ <;> decide +kernel
+  refine ⟨⟨?_, ?_, ?_, ?_, ?_, ?_, ?_⟩, ?_, ?_, ?_⟩ <;> decide +kernel
 
 /-- **the inferred delimiter splits every scanned row consistently**: when `scan_header` picks candidate `k`
     because it passes the test `mean > 0 and std == 0`, that character occurs the same number `c ≥ 1` of times
